@@ -8,9 +8,9 @@ trap 'git -C /repo worktree remove --force "$wt"; git -C /repo worktree prune' E
 fail=0
 for d in benign/${1:-}*.diff; do
   n=$(basename $d .diff)
-  case $n in B8*|B11*|R-C15z|R-C16z|R-C19y) checks="C15 C16 C19 C10";; B12*|R-C02z|R-C01y) checks="C01 C02 C03 C04 C06 C20";;
+  case $n in B8*|B11*|R-C15z|R-C16z|R-C19y|R-C15x) checks="C15 C16 C19 C10";; R-C16x) checks="C16 C15 C07 C03";; B12*|R-C02z|R-C01y|R-C02x) checks="C01 C02 C03 C04 C06 C20";;
     R-C03y|R-C08y) checks="C03 C08 C07";;
-    R-C07z) checks="C07 C08 C03 C20 C02";; R-C17z) checks="C17 C03";; R-C20z) checks="C20";; *) checks="C04 C05 C06 C09 C10 C11 C12 C13 C14 C18";; esac
+    R-C07z|R-C07x) checks="C07 C08 C03 C20 C02";; R-C17z) checks="C17 C03";; R-C20z|R-C20x) checks="C20";; *) checks="C04 C05 C06 C09 C10 C11 C12 C13 C14 C18";; esac
   git -C "$wt" apply "$PWD/$d" || { echo "$n -> patch does not apply"; fail=1; continue; }
   res=$(NO_BASELINE=$([ -z "$BASELINE" ] && echo 1) bin/trymutant_wt.sh "$wt" $checks 2>&1 | awk '{print $1":"$2}' | tr '\n' ' ')
   git -C "$wt" checkout -q -- . ; git -C "$wt" clean -fdq
